@@ -19,6 +19,7 @@ import (
 
 	"github.com/gofiber/fiber/v3"
 	fiberlog "github.com/gofiber/fiber/v3/log"
+	"github.com/valyala/fasthttp"
 
 	"verifharness/internal/drive"
 	"verifharness/internal/ev"
@@ -446,6 +447,7 @@ type pair struct {
 	ipSent  bool
 	dup     bool
 
+	http10 bool              // wire path: HTTP/1.0 request line
 	wire   bool              // parsed from wire bytes (raw header block keeps the sent spelling) instead of direct drive
 	extra  []fwd             // other request headers, sent with both twins
 	likeOf map[string]string // lower-cased look-alike header name in hdrs -> the documented name it resembles
@@ -466,7 +468,13 @@ func (p *pair) m() map[string]any {
 	m := map[string]any{"config": p.cfg.m(), "peer": p.remote.String(), "peer_ip_bytes": len(p.remote.IP), "host_header": p.host, "tls": p.tls, "forwarding_headers": hs}
 	m["transport"] = "direct"
 	if p.wire {
-		m["transport"] = "wire"
+		m["transport"] = "wire HTTP/1.1"
+		if p.http10 {
+			m["transport"] = "wire HTTP/1.0"
+		}
+	}
+	if p.host == "" {
+		m["host_header"] = nil
 	}
 	if len(p.extra) > 0 {
 		xs := make([]string, len(p.extra))
@@ -531,7 +539,14 @@ func (p *pair) do(d *drive.Direct, v *vec, hdrs []fwd) vec {
 	*v = vec{}
 	if p.wire {
 		var b bytes.Buffer
-		b.WriteString("GET / HTTP/1.1\r\nHost: " + p.host + "\r\n")
+		if p.http10 {
+			b.WriteString("GET / HTTP/1.0\r\n")
+		} else {
+			b.WriteString("GET / HTTP/1.1\r\n")
+		}
+		if p.host != "" {
+			b.WriteString("Host: " + p.host + "\r\n")
+		}
 		for _, hs := range [][]fwd{p.extra, hdrs} {
 			for _, h := range hs {
 				b.WriteString(h.name + ": " + h.val + "\r\n")
@@ -544,6 +559,26 @@ func (p *pair) do(d *drive.Direct, v *vec, hdrs []fwd) vec {
 			nc = tlsScript{sc}
 		}
 		_ = p.app.Server().ServeConn(nc)
+		return *v
+	}
+	if p.host == "" {
+		// a request without any Host header (the shared direct driver always supplies one)
+		var req fasthttp.Request
+		req.Header.SetMethod("GET")
+		req.SetRequestURI("/")
+		for _, hs := range [][]fwd{p.extra, hdrs} {
+			for _, h := range hs {
+				req.Header.Add(h.name, h.val)
+			}
+		}
+		var fctx fasthttp.RequestCtx
+		if p.tls {
+			fctx.Init2(tlsScript{drive.NewScriptConn(nil, p.remote)}, nil, false)
+			req.CopyTo(&fctx.Request)
+		} else {
+			fctx.Init(&req, p.remote, nil)
+		}
+		p.app.Handler()(&fctx)
 		return *v
 	}
 	rq := &drive.Req{Method: "GET", URI: "/", Host: p.host, Remote: p.remote, TLS: p.tls}
@@ -675,6 +710,10 @@ func genPair(r *gen.Rand) *pair {
 		p.extra = append(p.extra, gen.Pick(r, []fwd{{"X-Request-Id", "abc123"}, {"Accept", "*/*"}, {"User-Agent", "probe/1"}, {"X-Trace", "1"}, {"Cache-Control", "no-cache"}}))
 	}
 	p.host = gen.Pick(r, []string{"example.com", "app.example.com:8080", "a.b.c.example.org", "localhost:3000", "10.1.2.3:80", "[2001:db8::1]:8080", "tobi.ferrets.example.com"})
+	if r.Chance(1, 8) {
+		p.host = "" // no Host header at all: HTTP/1.0 clients, health checkers
+	}
+	p.http10 = r.Chance(1, 4)
 	p.tls = r.Chance(1, 4)
 
 	// forwarding headers of twin A
@@ -864,6 +903,9 @@ func judge(e *ev.Env, c *ev.Case, p *pair) {
 	if p.donor != nil {
 		e.Stat("pairs_config_from_other_app", 1)
 	}
+	if p.host == "" {
+		e.Stat("pairs_without_host_header", 1)
+	}
 	e.Eval(2)
 	if len(p.likeOf) > 0 && (!p.wire || A0.ran) {
 		// only the documented field names count: the same request without the look-alike headers
@@ -1022,6 +1064,10 @@ func judge(e *ev.Env, c *ev.Case, p *pair) {
 					cause = canonName(p, h.name)
 					break
 				}
+			}
+			if p.host == "" {
+				// input class: the request carries no Host header at all
+				cause += "|request-without-host-header"
 			}
 			e.Violation(c, "C10|untrusted-interference|Ctx."+df[0]+"|"+cause, "a forwarding header from an untrusted peer changed "+strings.Join(df, ","), detail(map[string]any{"differs": df}))
 		}
